@@ -46,10 +46,10 @@ def _iso_src():
         import chython.algorithms.isomorphism as mod
         fs = regions.find_function(tree, 'MoleculeIsomorphism._cython_compiled_structure')
         fq = regions.find_function(tree, 'QueryIsomorphism._cython_compiled_query')
-        atom_loop = regions.locate(fs, 'for[0]')
-        bond_loop = regions.locate(fs, 'for[1]/for[0]')
-        qatom_loop = regions.locate(fq, 'for[0]/for[0]')
-        qclos_loop = regions.locate(fq, 'for[0]/for[1]/if[0]/for[0]')
+        atom_loop = regions.locate(fs, 'for[0]{bits1.append}')
+        bond_loop = regions.locate(fs, 'for[0]{o_from[i]}/for[0]{bits1[x]}')
+        qatom_loop = regions.locate(fq, 'for[0]{masks1}/for[0]{masks1.append}')
+        qclos_loop = regions.locate(fq, 'for[0]{masks1}/for[0]{closures}/if[0]/for[0]')
         fn = env.repo_path(IFILE)
         _SRC['iso'] = dict(mod=mod, src=src,
                            s_atom=regions.compile_region(atom_loop.body, fn), s_bond=regions.compile_region(bond_loop.body, fn),
